@@ -168,7 +168,7 @@ def harness(name):
         # H4 on tiny texts (used when exploration escalates to line points inside SLY)
         def make():
             ev = impl.ExperimentEvaluator(TA)
-            ctx = {"kind": "lin", "ev": ev, "init": "TA"}
+            ctx = {"kind": "lin", "ev": ev, "init": "TA", "epilogue": True}
 
             def body(key):
                 def run(ex, tid):
@@ -183,7 +183,7 @@ def harness(name):
     if name == "H4":
         def make():
             ev = impl.ExperimentEvaluator(A)
-            ctx = {"kind": "lin", "ev": ev}
+            ctx = {"kind": "lin", "ev": ev, "epilogue": True}
 
             def body(key):
                 def run(ex, tid):
@@ -228,7 +228,25 @@ def check(ex, ctx):
     t_end = ex.clock + 10
     for xi, r in enumerate(final):
         ops.append({"tid": -1, "op": ("call", xi), "inv": t_end + 2 * xi, "res": t_end + 2 * xi + 1, "value": r})
-    if not xsched.linearizable(ops, ctx.get("init", "A"), model):
+    # sequential epilogue after the join: back to the initial text, then to another one - each must take effect
+    # (a snapshot of "the previous version" taken across a concurrent recompile would resurface here)
+    init = ctx.get("init", "A")
+    t = t_end + 2 * len(final) + 2
+    for key in ((init, "B" if init != "B" else "A", init) if ctx.get("epilogue") else ()):
+        if key not in TABLE:
+            continue
+        with quiet():
+            try:
+                ev.recompile(TEXTS[key])
+                r = ("ok",)
+            except Exception as e:  # noqa
+                r = ("raise", type(e).__name__)
+            probe = [norm(impl.call(ev, x)) for x in INPUTS]
+        ops.append({"tid": -1, "op": ("recompile", key), "inv": t, "res": t + 1, "value": r})
+        for xi, pr in enumerate(probe):
+            ops.append({"tid": -1, "op": ("call", xi), "inv": t + 2 + 2 * xi, "res": t + 3 + 2 * xi, "value": pr})
+        t += 4 + 2 * len(probe)
+    if not xsched.linearizable(ops, init, model):
         hist = [(o["tid"], o["op"], o["value"], o["inv"], o["res"]) for o in ops]
         return {"kind": "sched:linearizability", "why": "no sequential order of the operations explains the results", "history": short(repr(hist), 900)}
     return None
@@ -269,7 +287,7 @@ def _work(units):
         if shared:
             out["cov"]["shared_sly_instances"] = out["cov"].get("shared_sly_instances", 0) + len(shared)
         for x in v:
-            x.update({"harness": hname, "mode": mode, "modules": mods})
+            x.update({"harness": hname, "mode": mode, "modules": mods, "stride": xsched.CALL_STRIDE[0]})
             out["viol"].append(x)
             out["cov"]["violating_cases"] = out["cov"].get("violating_cases", 0) + 1
         out["outcomes"].append(f"{hname}:{mode}:{bound}")
@@ -282,6 +300,19 @@ def _probe(entry):
 
     hname, mode, mods, bound, cap = entry
     modules = xsched.CORE_MODULES if mods == "core" else xsched.DEEP_MODULES
+    stride = 1
+    if mode == "call":
+        # choose the stride so that the default schedule has a few hundred points (measured in a throw-away child)
+        from ..xlife import in_child
+
+        def count():
+            xsched.CALL_STRIDE[0] = 10**9
+            with xsched.Instrument(mode, modules):
+                ex0, _ = xsched.run_schedule(harness(hname), [])
+            return max(ex0.callcount.values() or [1])
+
+        stride = max(1, in_child(count) // 150)
+        xsched.CALL_STRIDE[0] = stride
     fp0 = global_fingerprint()
     with xsched.Instrument(mode, modules) as ins:
         ex, _ = xsched.run_schedule(harness(hname), [])
@@ -289,7 +320,7 @@ def _probe(entry):
         ex2, _ = xsched.run_schedule(harness(hname), [p[3] for p in ex.points])
         shared = ins.shared_instances()
     return {"points": [tuple(p) for p in ex.points], "fault": ex.fault or ex2.fault, "fp_changed": fp0 != fp1,
-            "reproducible": [p[:3] for p in ex.points] == [p[:3] for p in ex2.points], "shared": shared}  # fmt: skip
+            "reproducible": [p[:3] for p in ex.points] == [p[:3] for p in ex2.points], "shared": shared, "stride": stride}  # fmt: skip
 
 
 def plan_units(res, entry):
@@ -306,6 +337,9 @@ def plan_units(res, entry):
         res.set("isolated_mode", f"{hname}/{mode}: module-level state changed={pr['fp_changed']}, same schedule reproducible in one process={pr['reproducible']}")
     if pr["shared"]:
         res.add("shared_sly_instances", len(pr["shared"]))
+    if mode == "call":
+        xsched.CALL_STRIDE[0] = pr["stride"]  # inherited by the pool workers
+        res.set(f"call_stride/{hname}", pr["stride"])
     points = pr["points"]
     res.set(f"points_default_schedule/{hname}/{mode}/{mods}", len(points))
     choices = [p[3] for p in points]
@@ -319,8 +353,8 @@ def plan_units(res, entry):
     return units
 
 
-ESCALATION = {"quick": [("H1t", "line", "deep", 1, None), ("H4t", "line", "deep", 1, None)],
-              "thorough": [("H1t", "line", "deep", 1, None), ("H4t", "line", "deep", 1, None), ("H12", "line", "deep", 1, None), ("H1t", "line", "deep", 2, 40)]}
+ESCALATION = {"quick": [("H1t", "call", "deep", 1, None), ("H1t", "line", "deep", 1, None), ("H4t", "line", "deep", 1, None)],
+              "thorough": [("H1t", "call", "deep", 1, None), ("H1t", "line", "deep", 1, None), ("H4t", "line", "deep", 1, None), ("H12", "line", "deep", 1, None), ("H1t", "line", "deep", 2, 40)]}
 
 
 def run(res, tier):
@@ -387,6 +421,7 @@ def _work_split(units):
 def replay(data):
     prepare()
     modules = xsched.CORE_MODULES if data.get("modules", "core") == "core" else xsched.DEEP_MODULES
+    xsched.CALL_STRIDE[0] = data.get("stride", 1)
     with xsched.Instrument(data["mode"], modules):
         ex, ctx = xsched.run_schedule(harness(data["harness"]), data["schedule"])
         if ex.fault:
